@@ -1,6 +1,8 @@
 SPECIFICATION Spec
 CONSTANTS
   MaxN = 3
+  BigPows = {7, 8, 10, 12, 15, 16, 20, 24, 30, 31, 32}
+  Dense = 1100
   Emit = FALSE
 INVARIANTS RefsResolve MergeComplete EmitPattern
 CHECK_DEADLOCK FALSE
